@@ -275,6 +275,9 @@ def api_ops():
         # the narrowest class wins, whatever the shared context has seen so far (decDerived shows it Derived alone)
         # type information handed in for ONE call (globalns names the classes of a local scope) belongs to that call: the
         # next class built through the same context resolves its own string annotations in its own module
+        # a render that FAILS after the document has started (a compound value no choice admits): nothing of it may show
+        # in what the same serializer instances write next
+        "serFails": lambda sh: sh.xs.render(m.Ev(when=3.5)),
         "serLocalGlobalns": lambda sh: XmlSerializer(context=sh.ctx, config=SerializerConfig(xml_declaration=False, globalns={"Street": LSTREET, "Road": LROAD, "List": List, "Optional": Optional})).render(
             LROAD(streets=[LSTREET(name="l", lanes=2)])),
         "parseTown": lambda sh: _name_and_value(sh.xp.from_string("<Town><streets><name>a</name></streets></Town>", m.Town)),
